@@ -647,4 +647,234 @@ example : (steps Guards.original Witness.env (fun _ => "") ⟨true, none, none, 
 example : (steps Guards.original Witness.env (fun _ => "") ⟨true, none, none, none, none⟩
     [.ruleFile (.doc Witness.wellFormed), .ruleFile (.doc Witness.confusedReference)]).alive = false := by decide
 
+/-! ## the watcher over several watched files
+
+`internal/watcher`: ONE goroutine (`startWatching`) serves all watched files — the TLS key stores, the key store of
+the JWT signer and of the HTTP message signatures, the redis credentials.  fsnotify binds a watch to the file that is
+at the path when it is registered; when that file is removed, replaced by a rename or moved away the watch is gone
+and the loop receives a Remove / Rename event.  `WatchLoop` says what the loop does with it: the code ignores it
+(`WatchLoop.head`); a loop that registers the path again and `return`s when that fails (the file is still absent:
+`rm` then `cp`, a file moved away) has left the loop for good. -/
+
+/-- **No history of file operations stops the watcher, and a change of any other watched file is still delivered.**
+For every loop that does not leave on a failed renewal (the code's in particular), every state of the files and every
+history of writes, truncations, permission changes, removals, replacements by rename, re-creations and further
+registrations: the goroutine is in its loop afterwards; and every file `y` that was watched and is not itself taken
+away by the history is still watched, and a change of it is handed to its listener. By induction over the history. -/
+theorem c19_watcher_survives_file_removal (l : WatchLoop) (hl : (l.renew && l.returnOnFailedRenewal) = false)
+    (w : Watcher) (hw : w.alive = true) (ops : List FileOp) :
+    (watchRun l w ops).alive = true ∧
+      ∀ y, y ∈ w.watched → y ∈ w.present → (∀ op ∈ ops, op.displaces y = false) →
+        y ∈ (watchRun l w ops).watched ∧
+          (watchRun l w (ops ++ [.written y])).delivered = (watchRun l w ops).delivered ++ [y] := by
+  have ha : (watchRun l w ops).alive = true := (watchRun_alive l hl ops w).trans hw
+  refine ⟨ha, ?_⟩
+  intro y hyw hyp hd
+  obtain ⟨h1, h2⟩ := watchRun_keeps l ops w y hd hyw hyp
+  refine ⟨h1, ?_⟩
+  rw [watchRun_append]
+  simp only [watchRun, List.foldl_cons, List.foldl_nil, watchStep]
+  have c1 : y ∈ (List.foldl (watchStep l) w ops).present := by simpa [watchRun] using h2
+  have c2 : y ∈ (List.foldl (watchStep l) w ops).watched := by simpa [watchRun] using h1
+  have c3 : (List.foldl (watchStep l) w ops).alive = true := by simpa [watchRun] using ha
+  simp [c1, c2, c3]
+
+example : (WatchLoop.head.renew && WatchLoop.head.returnOnFailedRenewal) = false := rfl
+
+/-- three watched files; the first is removed and created again, the second replaced by a rename, the third gets new
+permissions: changes of the first two are no longer noticed (the watch went with the old file; their previous
+contents stay in effect), a change of the third is delivered, the goroutine is alive -/
+example : watchRun .head ⟨true, [0, 1, 2], [0, 1, 2], [0, 1, 2], []⟩
+    [.fileRemoved 0, .fileBack 0, .written 0, .fileReplaced 1, .written 1, .attrib 2, .written 2] =
+      ⟨true, [0, 1, 2], [0, 1, 2], [2], [2]⟩ := by decide
+
+/-- **A loop that returns on a failed re-registration dies of one removed file.** The watched file `x` is absent
+when its Remove / Rename event is handled: the goroutine has ended, and whatever happens afterwards — to `x` or to any
+other watched file — no listener is told any more. -/
+theorem c19_watcher_returning_loop_dies (w : Watcher) (hw : w.alive = true) (x : Nat) (hx : x ∈ w.watched)
+    (later : List FileOp) :
+    (watchRun ⟨true, true⟩ w (.fileRemoved x :: later)).alive = false ∧
+      (watchRun ⟨true, true⟩ w (.fileRemoved x :: later)).delivered = w.delivered := by
+  have hstep : (watchStep ⟨true, true⟩ w (.fileRemoved x)).alive = false ∧
+      (watchStep ⟨true, true⟩ w (.fileRemoved x)).delivered = w.delivered := by
+    simp [watchStep, hx, hw]
+  simp only [watchRun, List.foldl_cons]
+  have := watchRun_dead ⟨true, true⟩ later (watchStep ⟨true, true⟩ w (.fileRemoved x)) hstep.1
+  simp only [watchRun] at this
+  exact ⟨this.1, this.2.trans hstep.2⟩
+
+/-- the history of the seeded defect: key store 1 is removed, key store 2 is written — under the code's loop the
+listener of key store 2 is told, under the returning loop nobody is; the same loop does follow a file that is replaced
+by a rename (which is why ordinary use does not show the difference) -/
+example : (watchRun .head ⟨true, [1, 2], [1, 2], [1, 2], []⟩ [.fileRemoved 1, .written 2]).delivered = [2] ∧
+    (watchRun ⟨true, true⟩ ⟨true, [1, 2], [1, 2], [1, 2], []⟩ [.fileRemoved 1, .written 2]).delivered = [] ∧
+    (watchRun ⟨true, true⟩ ⟨true, [1, 2], [1, 2], [1, 2], []⟩ [.fileReplaced 1, .written 1, .written 2]).delivered =
+      [1, 1, 2] := by decide
+
+/-- the two together: the watcher goroutine survives every history exactly if its loop has no such exit -/
+theorem c19_watcher_survives_iff (l : WatchLoop) :
+    (∀ (w : Watcher) (ops : List FileOp), w.alive = true → (watchRun l w ops).alive = true) ↔
+      (l.renew && l.returnOnFailedRenewal) = false := by
+  constructor
+  · intro h
+    cases hr : l.renew <;> cases hf : l.returnOnFailedRenewal <;> try rfl
+    have hl : l = ⟨true, true⟩ := by cases l; simp_all
+    have := h ⟨true, [0], [0], [0], []⟩ [.fileRemoved 0] rfl
+    rw [hl] at this
+    exact absurd this (by decide)
+  · intro hl w ops hw
+    exact (c19_watcher_survives_file_removal l hl w hw ops).1
+
+/-- **… and the previous state stays in effect.** Under the code's loop listeners are started by changes of a file's
+content only: removals, replacements, re-creations, permission changes and registrations reload nothing, so every
+component keeps working with what it loaded last. -/
+theorem c19_watcher_removal_reloads_nothing (w : Watcher) (ops : List FileOp)
+    (h : ∀ op ∈ ops, op.isWrite = false) : (watchRun .head w ops).delivered = w.delivered := by
+  induction ops generalizing w with
+  | nil => rfl
+  | cons op ops ih =>
+    simp only [watchRun, List.foldl_cons]
+    have := ih (watchStep .head w op) (fun op' h' => h op' (by simp [h']))
+    simp only [watchRun] at this
+    rw [this, watchStep_head_delivered w op (h op (by simp))]
+
+example : ∀ op ∈ [FileOp.fileRemoved 0, .fileBack 0, .fileReplaced 1, .attrib 2, .register 3], op.isWrite = false := by
+  decide
+
+/-- **The tie for the loop.** What `/verif/extract/guards` finds in `startWatching` of the working tree — the
+statements that leave the `for { select { … } }` loop other than the two "channel closed" returns — is what the
+code's loop of the model has: none. -/
+theorem c19_gen_watcher_loop_never_leaves :
+    loopLeaves Gen.LoaderGuards.watcherLoopExits =
+      (WatchLoop.head.renew && WatchLoop.head.returnOnFailedRenewal) := by decide
+
+/-! ## rule sets polled from an HTTP endpoint
+
+`internal/rules/provider/httpendpoint`: the provider keeps the rule set it has only when the fetch fails with an
+internal or configuration error; every other failure of the fetch means "the rule set is gone" to it.  So the kind of
+error a body that breaks off on the way ends in decides whether a PARTIALLY RECEIVED rule set is a rejected reload or
+the end of all rules of the endpoint.  The code hands the body to the decoder as it arrives: the failed read is a
+decoding error (`FetchErr.internal`). -/
+
+/-- **A rule set that arrives in part is a rejected reload.** Whatever the rules in force from the endpoint and
+whatever the bytes that did arrive: the provider leaves everything as it is. -/
+theorem c19_partial_response_keeps_rules (st : Option (List String)) (c : EndpointContent) :
+    pollEndpoint .internal st (.body .brokenOff c) = (.kept, st) := rfl
+
+/-- **… exactly if the failed read is an internal or configuration error.** Reported as anything else
+(a communication error, say) one broken transfer removes the rules loaded before. -/
+theorem c19_partial_response_keeps_iff (k : FetchErr) :
+    (∀ (st : Option (List String)) (c : EndpointContent), (pollEndpoint k st (.body .brokenOff c)).2 = st) ↔
+      (k = .internal ∨ k = .configuration) := by
+  constructor
+  · intro h
+    have := h (some ["r"]) .empty
+    cases k <;> simp_all [pollEndpoint, fetchRuleSet]
+  · rintro (rfl | rfl) st c <;> rfl
+
+example : pollEndpoint .communication (some ["foo", "bar"]) (.body .brokenOff (.ruleSet ["foo", "bar"] true)) =
+    (.deleted, none) := by decide
+
+/-- **After any history of polls** — complete and partial responses, error statuses, an endpoint that does not
+answer, rule sets that are refused, in any order and number — the rules in force from the endpoint are those of the
+last poll that MEANS something (`endpointLoads`: a complete acceptable rule set, or "no rule set here"); polls whose
+body broke off, whose bytes are no rule set or whose rule set is refused leave no trace. In particular any number of
+such polls in a row leaves the rules exactly as they were. By induction over the history. -/
+theorem c19_endpoint_history (st : Option (List String)) (rs : List Polled) :
+    pollRun .internal st rs = lastGood endpointLoads st rs ∧
+      ((∀ r ∈ rs, endpointLoads r = none) → pollRun .internal st rs = st) := by
+  have h1 : ∀ (rs : List Polled) (st : Option (List String)),
+      pollRun .internal st rs = lastGood endpointLoads st rs := by
+    intro rs
+    induction rs with
+    | nil => intro st; rfl
+    | cons r rs ih =>
+      intro st
+      simp only [pollRun, lastGood, List.foldl_cons] at ih ⊢
+      rw [pollEndpoint_state]
+      exact ih _
+  refine ⟨h1 rs st, ?_⟩
+  intro hnone
+  rw [h1]
+  induction rs generalizing st with
+  | nil => rfl
+  | cons r rs ih =>
+    simp only [lastGood, List.foldl_cons, hnone r (by simp), orKeep]
+    exact ih st (fun r' h' => hnone r' (by simp [h']))
+
+/-- a rule set, then the same endpoint answering with half of the next version three times, with garbage, with a
+rule set the factory refuses, and at last with the next version: the first one stays until the last poll -/
+example : [[], [Polled.body .complete (.ruleSet ["a"] true)],
+      [.body .complete (.ruleSet ["a"] true), .body .brokenOff (.ruleSet ["b"] true), .body .brokenOff .empty,
+        .body .brokenOff .unparsable, .body .complete .unparsable, .body .complete (.ruleSet ["x"] false)],
+      [.body .complete (.ruleSet ["a"] true), .body .brokenOff (.ruleSet ["b"] true),
+        .body .complete (.ruleSet ["b"] true)],
+      [.body .complete (.ruleSet ["a"] true), .status 503]].map (pollRun .internal none) =
+    [none, some ["a"], some ["a"], some ["b"], none] := by decide
+
+example : endpointLoads (.body .brokenOff (.ruleSet ["b"] true)) = none ∧
+    endpointLoads (.body .complete .unparsable) = none := ⟨rfl, rfl⟩
+
+/-! ## the status of a RuleSet resource (kubernetes provider)
+
+The handlers of the kubernetes provider run on the informer's goroutine; client-go logs a panic there and panics
+again (`HandleCrash`), nothing of heimdall recovers: the recover layer read off the source has no entry for it.
+Each handler ends with `updateStatus`, which reads `status.activeIn` of the resource — a value anybody with access to
+the status subresource (or another version of the controller) may have written — and the error of the PATCH. -/
+
+/-- **The status update returns on every resource and every answer — exactly under the two checks.** For every
+number of parts "/" splits `status.activeIn` into and every sequence of answers of the API server (accepted, refused
+with any status code, conflicts that make it start over, no usable answer at all). -/
+theorem c19_ruleset_status_update_returns_iff (g : StatusGuards) :
+    (∀ (parts : Nat) (answers : List PatchAnswer), (updateStatus g parts answers).returns = true) ↔
+      (g.splitChecked && g.asChecked) = true := by
+  constructor
+  · intro h
+    cases hs : g.splitChecked
+    · have := h 1 []
+      simp [updateStatus, hs, Out.returns] at this
+    · cases ha : g.asChecked
+      · have := h 2 [.noAnswer]
+        simp [updateStatus, hs, ha, Out.returns] at this
+      · rfl
+  · intro h parts answers
+    have hg : g = .head := by
+      cases g
+      simp only [Bool.and_eq_true] at h
+      simp [StatusGuards.head, h.1, h.2]
+    rw [hg]
+    exact updateStatus_returns parts answers
+
+example : (StatusGuards.head.splitChecked && StatusGuards.head.asChecked) = true := rfl
+
+/-- the inputs of the finding, before and after: `status.activeIn: "x"`; an API server that cannot be reached when the
+status is patched — also after a conflict; well-formed values and refusals are no problem for either -/
+example : updateStatus .original 1 [.ok] = .panic ∧ updateStatus .head 1 [.ok] = .ok () := by decide
+example : updateStatus .original 2 [.noAnswer] = .panic ∧ updateStatus .head 2 [.noAnswer] = .ok () := by decide
+example : updateStatus .original 2 [.status 409, .noAnswer] = .panic ∧
+    updateStatus .head 2 [.status 409, .noAnswer] = .ok () := by decide
+example : updateStatus .original 2 [.status 409, .status 500] = .ok () ∧ updateStatus .original 3 [.ok] = .ok () := by
+  decide
+
+/-- **The informer goes on.** With the two checks, for every history of RuleSet events (each with any `activeIn`
+and any answers to its status update) the goroutine of the informer — which nothing recovers on — handles every one
+of them and is alive afterwards; without them the first such resource ends the process. -/
+theorem c19_informer_survives_status_updates (evs : List (Nat × List PatchAnswer)) (p : Proc Nat)
+    (hp : p.alive = true) :
+    (run false (evs.map fun e => ruleSetEvent .head e.1 e.2) p).alive = true ∧
+      (run false (evs.map fun e => ruleSetEvent .head e.1 e.2) p).handled = p.handled + evs.length := by
+  have := c19_watcher_goes_on false (evs.map fun e => ruleSetEvent .head e.1 e.2) p hp (by
+    intro h hh s
+    obtain ⟨e, _, rfl⟩ := List.mem_map.mp hh
+    simp only [ruleSetEvent, Out.within_false]
+    exact updateStatus_returns e.1 e.2)
+  exact ⟨this.1, by simpa using this.2.1⟩
+
+example : (run false [ruleSetEvent .original 2 [.ok], ruleSetEvent .original 1 [.ok], ruleSetEvent .original 2 [.ok]]
+    (⟨true, 0, 0⟩ : Proc Nat)).alive = false ∧
+    (run false [ruleSetEvent .head 2 [.ok], ruleSetEvent .head 1 [.ok], ruleSetEvent .head 2 [.noAnswer]]
+      (⟨true, 0, 0⟩ : Proc Nat)).alive = true ∧
+    (run false [ruleSetEvent .head 2 [.ok], ruleSetEvent .head 1 [.ok], ruleSetEvent .head 2 [.noAnswer]]
+      (⟨true, 0, 0⟩ : Proc Nat)).handled = 3 := by decide
+
 end Heimdall.Props.C19
